@@ -259,6 +259,39 @@ impl SizeMap {
                 }
                 arr[i] = keep;
             }
+            // the further value on MANY fixed modules at once: a whole track; the light modules of a track; its dark
+            // modules; every light fixed module of the symbol; every dark one (a reader that reports all modules of
+            // one kind as "undecided")
+            let mut sets: Vec<Vec<usize>> = Vec::new();
+            for track in fixed_tracks(s) {
+                let t: Vec<usize> = track.iter().map(|p| *p as usize).collect();
+                sets.push(t.iter().copied().filter(|i| self.template[*i] == Some(false)).collect());
+                sets.push(t.iter().copied().filter(|i| self.template[*i] == Some(true)).collect());
+                sets.push(t);
+            }
+            sets.push((0..self.template.len()).filter(|i| self.template[*i] == Some(false)).collect());
+            sets.push((0..self.template.len()).filter(|i| self.template[*i] == Some(true)).collect());
+            for set in sets {
+                if set.is_empty() {
+                    continue;
+                }
+                let mut arr2 = self.tags.clone();
+                for i in &set {
+                    arr2[*i] = third;
+                }
+                if let Ok((m, _)) = MatrixMap::<Tag>::try_from_bits(&arr2, self.width) {
+                    if m.bitmap().bits() != &arr2[..] {
+                        let i = set[0];
+                        return Some(format!(
+                            "{}: an array in which {} fixed modules (the first at row {} col {}) hold a value that is neither LOW nor HIGH was accepted, and re-rendering does not reproduce it",
+                            s.name,
+                            set.len(),
+                            i / self.width,
+                            i % self.width
+                        ));
+                    }
+                }
+            }
             None
         })
     }
